@@ -12,13 +12,24 @@ git checkout -q --detach "$(git -C /repo rev-parse HEAD)" 2>/dev/null
 base_ok=skip; mut_fail=skip
 if [ -f "$dir/demo.js" ]; then
   cargo build -p boa_cli --offline -q 2> /tmp/vwt-build.log || { echo "SEEDED $id: base build failed"; exit 2; }
-  ./target/debug/boa "$dir/demo.js" > /tmp/vwt-base.out 2>&1
+  (cd "$dir" && timeout 120 $wt/target/debug/boa ${DEMO_FLAGS:-} demo.js) > /tmp/vwt-base.out 2>&1
   if diff -q /tmp/vwt-base.out "$dir/expected.txt" > /dev/null; then base_ok=yes; else base_ok=no; fi
 fi
+# demo.rs: demo_rs.conf gives dest=<file in the tree> mode=new|append cmd=<cargo test command>
+place_rs() { . "$dir/demo_rs.conf"; if [ "$mode" = append ]; then cat "$dir/demo.rs" >> "$wt/$dest"; else mkdir -p "$(dirname "$wt/$dest")"; cp "$dir/demo.rs" "$wt/$dest"; fi; }
+run_rs() { . "$dir/demo_rs.conf"; (cd "$wt" && eval "$cmd") > "$1" 2>&1; grep -aq "test result: ok" "$1" && ! grep -aq "test result: FAILED\|error\[" "$1"; }
+if [ ! -f "$dir/demo.js" ] && [ -f "$dir/demo_rs.conf" ]; then
+  place_rs; if run_rs /tmp/vwt-base.out; then base_ok=yes; else base_ok=no; fi
+  git checkout -q -- . ; git clean -fdq -e target
+fi
 git apply "$dir/patch.diff" || { echo "SEEDED $id: patch does not apply"; exit 2; }
+if [ ! -f "$dir/demo.js" ] && [ -f "$dir/demo_rs.conf" ]; then
+  place_rs; if run_rs /tmp/vwt-mut.out; then mut_fail=no; else mut_fail=yes; fi
+  . "$dir/demo_rs.conf"; if [ "$mode" = append ]; then git checkout -q -- "$dest"; git apply "$dir/patch.diff" 2>/dev/null; else rm -f "$wt/$dest"; fi
+fi
 if [ -f "$dir/demo.js" ]; then
   cargo build -p boa_cli --offline -q 2> /tmp/vwt-build.log || { echo "SEEDED $id: mutant build failed"; git checkout -q -- .; exit 2; }
-  timeout 120 ./target/debug/boa "$dir/demo.js" > /tmp/vwt-mut.out 2>&1
+  (cd "$dir" && timeout 120 $wt/target/debug/boa ${DEMO_FLAGS:-} demo.js) > /tmp/vwt-mut.out 2>&1
   if diff -q /tmp/vwt-mut.out "$dir/expected.txt" > /dev/null; then mut_fail=no; else mut_fail=yes; fi
 fi
 tests="not-run"
@@ -26,5 +37,5 @@ if [ "${SKIP_TESTS:-0}" != 1 ]; then
   cargo nextest run --workspace --no-fail-fast --offline --test-threads 8 > /tmp/vwt-tests.log 2>&1
   tests="$(grep -a "Summary" /tmp/vwt-tests.log | tail -1)"
 fi
-git checkout -q -- .
+git checkout -q -- . ; git clean -fdq -e target
 echo "SEEDED $id: demo-passes-on-base=$base_ok demo-fails-with-patch=$mut_fail tests: $tests"
